@@ -107,10 +107,10 @@ impl Collector {
             let c = std::ffi::CString::new(p.as_str()).unwrap();
             let fd = libc::open(c.as_ptr(), libc::O_RDWR | libc::O_CREAT, 0o644);
             assert!(fd >= 0, "cannot open progress file");
-            libc::ftruncate(fd, 8);
+            libc::ftruncate(fd, 16);
             let m = libc::mmap(
                 std::ptr::null_mut(),
-                8,
+                16,
                 libc::PROT_READ | libc::PROT_WRITE,
                 libc::MAP_SHARED,
                 fd,
@@ -119,6 +119,7 @@ impl Collector {
             assert!(m != libc::MAP_FAILED);
             let p = m as *mut u64;
             *p = u64::MAX;
+            *p.add(1) = 0;
             p
         });
         Collector {
@@ -171,9 +172,19 @@ impl Collector {
         }
         *self.spaces.entry(space.to_string()).or_insert(0) += 1;
         if let Some(p) = self.progress {
-            unsafe { std::ptr::write_volatile(p, i) };
+            unsafe {
+                std::ptr::write_volatile(p, i);
+                std::ptr::write_volatile(p.add(1), 0);
+            }
         }
         true
+    }
+    /// Tags the announced case (published next to its index): if the worker dies on it the
+    /// driver reports the death under this tag. 1 = "arg-type+retention".
+    pub fn tag_case(&mut self, tag: u64) {
+        if let Some(p) = self.progress {
+            unsafe { std::ptr::write_volatile(p.add(1), tag) };
+        }
     }
     pub fn cur_index(&self) -> u64 {
         self.index.saturating_sub(1)
@@ -257,6 +268,10 @@ pub fn install_silent_panic_hook() {
 
 fn trim_path(p: &str) -> String {
     // make panic locations independent of where the registry / repo lives
+    if let Some(i) = p.find("/work/gen/") {
+        // generated code: name the generated file only
+        return format!("generated:{}", p[i..].rsplit('/').next().unwrap_or(""));
+    }
     if let Some(i) = p.find("/repo/") {
         return p[i + 6..].to_string();
     }
